@@ -170,13 +170,46 @@ func fixedCases() {
 	}
 	doTrs(trsDesc{P: []float64{1, 2, 3}, S: []float64{2, 3, 4}, Q: []float64{0, 0, 1, 1}, V: []float64{1, 1, 1}, Exact: true})
 	doTrsCtor(trsCtorDesc{P: []float64{1, 2, 3}, S: []float64{2, 3, 4}, Q: []float64{0, 0, 1, 1}, D: []float64{-5, 6, 7}, V: []float64{1, 1, 1}, Exact: true})
+	// zero-extent boxes (single points, flat boxes) lying outside the receiver
+	unitBox := [2][]float64{{0, 0, 0}, {2, 2, 2}}
+	for _, pt := range [][]float64{{5, 5, 5}, {-7, 0, 0}, {0, 3, 0}, {1, 1, -4}} {
+		for _, viaPts := range []bool{false, true} {
+			doBoxBox(boxBoxDesc{C: unitBox[0], Size: unitBox[1], BC: pt, BSize: []float64{0, 0, 0}, BPoint: viaPts, Exact: true,
+				Probes: [][]float64{pt, {0, 0, 0}, {1, 1, 1}, {pt[0] / 2, pt[1] / 2, pt[2] / 2}}})
+		}
+		doBoxPt(boxPtDesc{C: pt, Size: []float64{0, 0, 0}, Pt: []float64{1, -2, 3}, Probes: [][]float64{pt, {1, -2, 3}, {0, 0, 0}}, Exact: true})
+		doClosest(closestDesc{C: pt, Size: []float64{0, 0, 0}, V: []float64{1, -2, 3}, Probes: [][]float64{pt}, Exact: true})
+		doBoxFrom(boxFromDesc{Pts: [][]float64{pt}, Exact: true})
+	}
+	for axis := 0; axis < 3; axis++ { // flat / line boxes outside the receiver
+		flat1, flat2 := []float64{4, 6, 2}, []float64{4, 6, 2}
+		flat1[axis] = 0
+		flat2[axis], flat2[(axis+1)%3] = 0, 0
+		for _, bs := range [][]float64{flat1, flat2} {
+			bc := []float64{9, -8, 7}
+			doBoxBox(boxBoxDesc{C: unitBox[0], Size: unitBox[1], BC: bc, BSize: bs, Exact: true,
+				Probes: boxProbes(hx.NewRng(uint64(axis)), true, unitBox, [2][]float64{bc, bs})})
+		}
+	}
+	run.Count("fixed:zero-extent-boxes")
+	// array-level entry points on large arrays: sizes around the powers of two, several worker counts
+	workers := []int{2, 3, 5, 7, 16}
+	k := 0
+	for _, n := range []int{8191, 8192, 8193, 10007, 20003, 65537} {
+		for _, entry := range []string{"trs.TransformArray", "trs.TransformInPlace", "mesh.ApplyTRS", "mesh.Rotate", "mesh.Translate", "mesh.Scale", "quat.RotateArray"} {
+			doBig(bigDesc{Entry: entry, N: n, PSeed: uint64(1000 + k), Workers: workers[k%len(workers)],
+				P: []float64{1, -2, 3}, S: []float64{2, 3, -1}, Q: []float64{1, 0, 2, -1}})
+			k++
+		}
+	}
+	run.Count("fixed:large-arrays")
 	doTheta(thetaDesc{Theta: math.Pi / 2, Axis: []float64{0, 0, 2}, V: []float64{1, 0, 0}})
 	doTheta(thetaDesc{Theta: math.Pi, Axis: []float64{0, 1, 0}, V: []float64{1, 2, 3}})
 }
 
 func generated(r *hx.Rng, i int) {
 	exact := r.Chance(2, 3)
-	switch i % 10 {
+	switch i % 12 {
 	case 0: // Add / Multiply
 		if exact {
 			if r.Bool() {
@@ -304,19 +337,66 @@ func generated(r *hx.Rng, i int) {
 		}
 		if r.Chance(1, 8) {
 			c, s = []float64{0, 0, 0}, []float64{0, 0, 0} // NewEmptyAABB grown from nothing
+		} else if r.Chance(1, 8) {
+			s = []float64{0, 0, 0} // a single-point box away from the origin
 		}
 		doBoxPt(boxPtDesc{C: c, Size: s, Pt: pt, Probes: boxProbes(r, exact, [2][]float64{c, s}), Exact: exact})
+	case 10: // NewAABBFromPoints
+		n := r.Range(1, 6)
+		pts := make([][]float64, n)
+		for k := range pts {
+			if exact {
+				pts[k] = ints(r, 3, -9, 9)
+			} else {
+				pts[k] = floats(r, 3, 8)
+			}
+		}
+		if r.Chance(1, 4) { // coincident / coplanar points: zero extents on all or some axes
+			for k := range pts {
+				pts[k][r.Intn(3)] = pts[0][0]
+				if r.Bool() {
+					pts[k] = append([]float64{}, pts[0]...)
+				}
+			}
+		}
+		doBoxFrom(boxFromDesc{Pts: pts, Exact: exact})
+	case 11: // array-level entry points, sizes 2^k + small offsets (k = 6..16) and arbitrary sizes
+		entry := hx.Pick(r, []string{"trs.TransformArray", "trs.TransformInPlace", "mesh.ApplyTRS", "mesh.Rotate", "mesh.Translate", "mesh.Scale", "quat.RotateArray"})
+		n := (1 << r.Range(6, 16)) + r.Range(-3, 3)
+		if r.Chance(1, 3) {
+			n = r.Range(1, 70000)
+		}
+		doBig(bigDesc{Entry: entry, N: n, PSeed: r.U64() >> 1, Workers: hx.Pick(r, []int{2, 3, 4, 5, 6, 7, 8, 11, 13, 16}),
+			P: ints(r, 3, -9, 9), S: ints(r, 3, -4, 4), Q: ints(r, 4, -4, 4)})
 	case 8: // EncapsulateBounds
 		var c, s, bc, bs []float64
+		bpoint := false
 		if exact {
 			c, s, bc, bs = ints(r, 3, -9, 9), ints(r, 3, 0, 9), ints(r, 3, -9, 9), ints(r, 3, 0, 9)
+			switch r.Intn(4) { // degenerate boxes to encapsulate: a point, a segment / rectangle
+			case 0:
+				bs = []float64{0, 0, 0}
+				bpoint = r.Bool()
+				if r.Bool() { // clearly outside the receiver
+					bc = []float64{c[0] + s[0] + float64(r.Range(1, 5)), c[1] - s[1] - float64(r.Range(1, 5)), c[2] + float64(r.Range(-2, 2))}
+				}
+			case 1:
+				bs[r.Intn(3)] = 0
+				if r.Bool() {
+					bs[r.Intn(3)] = 0
+				}
+			}
 		} else {
 			c, s, bc, bs = floats(r, 3, 8), floats(r, 3, 4), floats(r, 3, 8), floats(r, 3, 4)
 			for k := range s {
 				s[k], bs[k] = math.Abs(s[k]), math.Abs(bs[k])
 			}
 		}
-		doBoxBox(boxBoxDesc{C: c, Size: s, BC: bc, BSize: bs,
+		if !exact && r.Chance(1, 4) {
+			bs = []float64{0, 0, 0}
+			bpoint = r.Bool()
+		}
+		doBoxBox(boxBoxDesc{C: c, Size: s, BC: bc, BSize: bs, BPoint: bpoint,
 			Probes: boxProbes(r, exact, [2][]float64{c, s}, [2][]float64{bc, bs}), Exact: exact})
 	default: // ClosestPoint
 		var c, s, v []float64
@@ -326,6 +406,12 @@ func generated(r *hx.Rng, i int) {
 			c, s, v = floats(r, 3, 8), floats(r, 3, 4), floats(r, 3, 12)
 			for k := range s {
 				s[k] = math.Abs(s[k])
+			}
+		}
+		if r.Chance(1, 6) { // a single-point / flat box
+			s[r.Intn(3)] = 0
+			if r.Bool() {
+				s = []float64{0, 0, 0}
 			}
 		}
 		if r.Chance(1, 4) { // a query point inside the box
